@@ -37,7 +37,12 @@ def run(tier, seed, replay=None):
         v.violation("C01:final:" + (final.get("tag") + ":" if final.get("tag") else "") + "+".join(sorted(set(x.split(":")[1] for x in d["fields"]))),
                     "after the events stopped and more than 6x the convergence bound had passed, the mesh of scenario %s is not converged: %s"
                     % (final.get("sc"), d["fields"]), {"final": final})
-    nt = nodetrace.validate(wd, [hooks], timeout=3000)
+    # the picture of an origin after every accepted update, also for the adversarial single-node segments of C06 (same-size
+    # changes of a connection list, replays, forged forwarders): a short run, its hook events only
+    nlhooks = wd + "/nl_hooks.ndjson"
+    vlib.harness_json(vlib.build_harness(), ["netlocal", "-segments", "15" if tier == "quick" else "120", "-steps", "12", "-seed", str(seed), "-race-rounds", "0",
+                                            "-trace", wd + "/nl_trace.ndjson", "-hooktrace", nlhooks], wd, timeout=1500, name="nl")
+    nt = nodetrace.validate(wd, [hooks, nlhooks], timeout=3000)
     for d in nt["diffs"]:
         if d["event"] in C01_EVENTS:
             v.violation("C01:%s:%s" % (d["event"], "+".join(d["what"])),
